@@ -92,7 +92,9 @@ struct RowBlockContainer {
    */
   template <typename I>
   inline void Push(Row<I, DType> row) {
-    label.push_back(row.get_label());
+    if (row.label != NULL) {
+      label.push_back(row.get_label());
+    }
     weight.push_back(row.get_weight());
     qid.push_back(row.get_qid());
     if (row.field != NULL) {
@@ -125,9 +127,10 @@ struct RowBlockContainer {
    */
   template <typename I>
   inline void Push(RowBlock<I, DType> batch) {
-    size_t size = label.size();
-    label.resize(label.size() + batch.size);
-    std::memcpy(BeginPtr(label) + size, batch.label, batch.size * sizeof(DType));
+    size_t size = offset.size() - 1;
+    if (batch.label != NULL) {
+      label.insert(label.end(), batch.label, batch.label + batch.size);
+    }
     if (batch.weight != NULL) {
       weight.insert(weight.end(), batch.weight, batch.weight + batch.size);
     }
